@@ -22,6 +22,12 @@ static int lc(const node_t *n)
 }
 static int same(int i) { return P[i].next == O[i].next && P[i].prev == O[i].prev && P[i].parent == O[i].parent && P[i].children == O[i].children; }
 
+#ifdef UNIT_DESTROY
+/* what a destroy that is NOT refused goes on to call: recording stand-ins, so that proceeding is an observable failure */
+static int g_proceeded;
+void mpt_node_clear(node_t *n) { (void) n; g_proceeded++; }
+void *mpt_identifier_set(MPT_STRUCT(identifier) *id, const char *name, int len) { (void) id; (void) name; (void) len; g_proceeded++; return 0; }
+#endif
 void harness(void)
 {
 	/* roles: P[0] = a (position / node operated on), P[1] = b (inserted node), P[2] = a's successor, P[3] = a's
@@ -122,7 +128,7 @@ void harness(void)
 		node_t *r;
 		V_REQ(in_has_par || in_has_next || in_has_prev);
 		r = mpt_node_destroy(a);
-		V_CHECK("destroy: a node that is still linked is refused and left untouched", r == a && same(in_a) && same(in_g));
+		V_CHECK("destroy: a node that is still linked is refused and left untouched", r == a && same(in_a) && same(in_g) && !g_proceeded);
 	}
 #endif
 	V_CANARY();
